@@ -142,6 +142,8 @@ def main():
 
     try:
         corpus = mod.corpus() if hasattr(mod, "corpus") else []
+        # witnesses of repaired defects stay as regression cases (a fixed entry suppresses nothing)
+        corpus = [f["witness"] for f in common.load_findings() if f["property"] == prop and f["status"] == "fixed"] + corpus
         cases = corpus + mod.cases(rng, tier)
         explore(cases, driver_ok)
         if hasattr(mod, "extra_checks"):
